@@ -9,6 +9,7 @@
 //! Correspondence: the same bytes + configuration through the Coq model (tables generated from
 //! class_reader.rs) must give the same event trace and stream positions.
 mod rec;
+mod edge;
 
 use std::io::Cursor;
 use std::panic::AssertUnwindSafe;
@@ -307,17 +308,23 @@ fn describe(d: &VDesc) -> String { format!("{d:?}") }
 fn hex(b: &[u8]) -> String { b.iter().map(|x| format!("{x:02x}")).collect() }
 
 // ---------------------------------------------------------------- replay (ClassFile::accept)
-/// multiset view of a trace: the replay visits attributes in a fixed order, the reader in file order
-fn sorted_dbg(es: &[Ev]) -> Vec<String> {
+const ANNOTATION_ATTRS: [&str; 4] = ["RuntimeVisibleAnnotations", "RuntimeInvisibleAnnotations", "RuntimeVisibleTypeAnnotations", "RuntimeInvisibleTypeAnnotations"];
+
+/// multiset view of a trace: the replay visits attributes in a fixed order, the reader in file order.
+/// `relax_a`: an annotations visit without annotations is dropped (the tree cannot hold it: known finding F20a);
+/// `relax_b`: a visit of an empty local-variable table is dropped (the tree cannot tell which of LocalVariableTable /
+/// LocalVariableTypeTable an empty table came from: known finding F20b).  Returns the view and whether anything was dropped.
+fn sorted_dbg(es: &[Ev], relax_a: bool, relax_b: bool, dropped: &mut (bool, bool)) -> Vec<String> {
 	let mut v: Vec<String> = es.iter().map(|e| match e {
-		Ev::Method { hdr, es } => format!("Method {hdr} {:?}", es.as_ref().map(|e| sorted_dbg(e))),
-		Ev::Field { hdr, es } => format!("Field {hdr} {:?}", es.as_ref().map(|e| sorted_dbg(e))),
-		Ev::Rc { hdr, es } => format!("Rc {hdr} {:?}", es.as_ref().map(|e| sorted_dbg(e))),
+		Ev::Method { hdr, es } => format!("Method {hdr} {:?}", es.as_ref().map(|e| sorted_dbg(e, relax_a, relax_b, dropped))),
+		Ev::Field { hdr, es } => format!("Field {hdr} {:?}", es.as_ref().map(|e| sorted_dbg(e, relax_a, relax_b, dropped))),
+		Ev::Rc { hdr, es } => format!("Rc {hdr} {:?}", es.as_ref().map(|e| sorted_dbg(e, relax_a, relax_b, dropped))),
 		// labels that nothing delivered refers to may or may not be attached (the tree keeps those of the full read)
-		Ev::Code { max_stack, max_locals, insns, exc, es, .. } => format!("Code {max_stack} {max_locals} {:?} {exc} {:?}", insns.iter().map(|i| (&i.frame, &i.text)).collect::<Vec<_>>(), sorted_dbg(es)),
-		// the visit of an empty table carries no facts (the tree cannot tell which of LocalVariableTable /
-		// LocalVariableTypeTable an empty table came from)
-		Ev::Deferred { items, .. } if items.is_empty() => String::new(),
+		Ev::Code { max_stack, max_locals, insns, exc, es, .. } => format!("Code {max_stack} {max_locals} {:?} {exc} {:?}", insns.iter().map(|i| (&i.frame, &i.text)).collect::<Vec<_>>(), sorted_dbg(es, relax_a, relax_b, dropped)),
+		Ev::Deferred { slot, items, .. } if relax_b && items.is_empty() && *slot == "local_variable_table" => { dropped.1 = true; String::new() }
+		Ev::Attr { name, raw: None, content } if relax_a && content == "[]" && ANNOTATION_ATTRS.contains(&name.as_str()) => { dropped.0 = true; String::new() }
+		// `optional` is an annotation of the projection oracle, not part of the event
+		Ev::Deferred { slot, items, .. } => format!("Deferred {slot} {items:?}"),
 		e => format!("{e:?}"),
 	}).filter(|s| !s.is_empty()).collect();
 	// members keep their order (they are compared in order); attribute-level events are a multiset
@@ -328,54 +335,119 @@ fn sorted_dbg(es: &[Ev]) -> Vec<String> {
 	v
 }
 
+enum ReplayCmp { Same, Known(bool, bool), Differ(String) }
+
+/// replayed trace against the trace of reading the bytes with the same visitor
+fn compare_replay(got: &Option<Vec<Ev>>, read: &Option<Vec<Ev>>) -> ReplayCmp {
+	let view = |t: &Option<Vec<Ev>>, a: bool, b: bool| { let mut d = (false, false); let v = t.as_ref().map(|e| sorted_dbg(e, a, b, &mut d)); (v, d) };
+	if view(got, false, false).0 == view(read, false, false).0 { return ReplayCmp::Same; }
+	// the narrowest relaxation that explains the difference
+	for (a, b) in [(true, false), (false, true), (true, true)] {
+		let ((x, dx), (y, dy)) = (view(got, a, b), view(read, a, b));
+		if x == y && ((a && (dx.0 || dy.0)) || (b && (dx.1 || dy.1))) { return ReplayCmp::Known(a, b); }
+	}
+	let (x, y) = (view(got, false, false).0.unwrap_or_default(), view(read, false, false).0.unwrap_or_default());
+	let diff = x.iter().zip(&y).find(|(p, q)| p != q).map(|(p, q)| { let k = p.bytes().zip(q.bytes()).take_while(|(u, w)| u == w).count().saturating_sub(60); format!("replay: …{}\nread:   …{}", &p[k.min(p.len())..p.len().min(k + 400)], &q[k.min(q.len())..q.len().min(k + 400)]) }).unwrap_or_else(|| format!("{} vs {} events", x.len(), y.len()));
+	ReplayCmp::Differ(diff)
+}
+
+/// is the finding listed (open, for C17) in /verif/known_findings.json?  The list is committed by the coordinator; a finding
+/// that this harness recognises but that is not listed yet is counted and noted (`pending_finding:…`) instead of `known`.
+fn finding_listed(id: &str) -> bool {
+	let Ok(text) = std::fs::read_to_string("/verif/known_findings.json") else { return false };
+	let Ok(j) = serde_json::from_str::<serde_json::Value>(&text) else { return false };
+	j["findings"].as_array().map(|a| a.iter().any(|f| f["id"] == id && f["property"] == "C17" && f["status"].as_str().unwrap_or("open") == "open")).unwrap_or(false)
+}
+const F20A: &str = "F20a replaying a tree does not deliver an annotations attribute that has no annotations (the tree keeps annotation lists as plain Vec)";
+const F20B: &str = "F20b replaying a tree into a visitor interested in only one of local_variable_table / local_variable_type_table visits (or omits) an empty table where reading the bytes does not (the tree keeps one Option<Vec<Lv>> for both attributes)";
+
+fn report_known(r: &mut Report, a: bool, b: bool, cb_name: &str, cfg: &str) {
+	for (on, text) in [(a, F20A), (b, F20B)] {
+		if !on { continue; }
+		let id = text.split(' ').next().unwrap();
+		if finding_listed(id) { r.known(text.to_owned()); }
+		else {
+			r.count(&format!("pending_finding:{id}"));
+			let note = format!("PENDING-FINDING {text} — first seen on {cb_name} with visitor {cfg}");
+			if !r.notes.iter().any(|n| n.starts_with(&format!("PENDING-FINDING {id}"))) { r.notes.push(note); }
+		}
+	}
+}
+
 /// replaying the tree into a masked / declining visitor delivers what reading the bytes delivers to it
-fn replay_masked(r: &mut Report, cb: &ClassBytes, tree: &ClassFile, kind: &str, d: &VDesc, read_trace: &Option<Vec<Ev>>) {
+fn replay_masked(r: &mut Report, cb: &ClassBytes, shape: &Option<edge::Shape>, tree: &ClassFile, kind: &str, d: &VDesc, read_trace: &Option<Vec<Ev>>) -> Option<Option<Vec<Ev>>> {
 	r.count("replay_masked_runs");
 	let got = match guarded(AssertUnwindSafe(|| tree.clone().accept(RecMulti::new(d.clone())))) {
 		Ok(Ok(m)) => m.result.flatten(),
 		other => {
 			let what = format!("[{kind}] ClassFile::accept into a masked visitor {}", match other { Ok(Err(e)) => format!("failed: {e:#}"), _ => "panicked".into() });
 			r.violation(what.clone(), format!("property C17 (replay)\nwhat: {what}\nclass file: {}\nvisitor: {d:?}\nbytes (hex): {}\n", cb.name, hex(&cb.bytes)));
-			return;
+			return None;
 		}
 	};
-	let same = match (&got, read_trace) { (Some(a), Some(b)) => sorted_dbg(a) == sorted_dbg(b), (None, None) => true, _ => false };
-	if !same {
-		let (a, b) = (got.as_ref().map(|e| sorted_dbg(e)).unwrap_or_default(), read_trace.as_ref().map(|e| sorted_dbg(e)).unwrap_or_default());
-		let diff = a.iter().zip(&b).find(|(x, y)| x != y).map(|(x, y)| { let k = x.bytes().zip(y.bytes()).take_while(|(p, q)| p == q).count().saturating_sub(60); format!("replay: …{}\nread:   …{}", &x[k.min(x.len())..x.len().min(k + 400)], &y[k.min(y.len())..y.len().min(k + 400)]) }).unwrap_or_else(|| format!("{} vs {} events", a.len(), b.len()));
-		let what = format!("[{kind}] ClassFile::accept delivers other events to a masked visitor than reading the bytes does");
-		r.violation(what.clone(), format!("property C17 (replay)\nwhat: {what}\nclass file: {}\nvisitor: {d:?}\nfirst difference:\n{diff}\nbytes (hex): {}\n", cb.name, hex(&cb.bytes)));
+	if shape.as_ref().map(|s| s.duplicate_merged).unwrap_or(false) { r.count("replay_outside_hypothesis:duplicate_attribute"); return Some(got); }
+	match compare_replay(&got, read_trace) {
+		ReplayCmp::Same => {}
+		ReplayCmp::Known(a, b) if shape.as_ref().map(|s| (!a || s.empty_annotations) && (!b || s.rowless_local_table)).unwrap_or(false) => report_known(r, a, b, &cb.name, &format!("{d:?}")),
+		ReplayCmp::Known(..) | ReplayCmp::Differ(_) => {
+			let diff = match compare_replay(&got, read_trace) { ReplayCmp::Differ(d) => d, _ => "differs only by empty annotation / local-variable visits, but the class file has no such attribute".into() };
+			let what = format!("[{kind}] ClassFile::accept delivers other events to a masked visitor than reading the bytes does");
+			r.violation(what.clone(), format!("property C17 (replay)\nwhat: {what}\nclass file: {}\nvisitor: {d:?}\nfirst difference:\n{diff}\nbytes (hex): {}\n", cb.name, hex(&cb.bytes)));
+		}
 	}
+	Some(got)
 }
 
-fn replay_checks(r: &mut Report, cb: &ClassBytes, full_trace: &Option<Vec<Ev>>) {
-	let tree = match guarded(|| duke::read_class(&mut Cursor::new(&cb.bytes))) { Ok(Ok(t)) => t, _ => { r.count("replay_skipped_unreadable"); return; } };
+/// replaying into the tree builder reproduces the class: Some(equal?) / None = accept failed
+fn rebuild_check(r: &mut Report, cb: &ClassBytes, tree: &ClassFile) -> bool {
 	r.count("replay_classes");
-	// (a) replaying into the tree builder reproduces the class
 	match guarded(AssertUnwindSafe(|| tree.clone().accept(Vec::<ClassFile>::new()))) {
 		// compared through {:?}: PartialEq is not reflexive on trees holding NaN float constants
-		Ok(Ok(v)) if v.len() == 1 && (v[0] == tree || format!("{:?}", v[0]) == format!("{tree:?}")) => {}
+		Ok(Ok(v)) if v.len() == 1 && (v[0] == *tree || format!("{:?}", v[0]) == format!("{tree:?}")) => true,
 		other => {
 			let what = match other { Ok(Ok(v)) => format!("ClassFile::accept into Vec<ClassFile> gave {} class(es) that differ from the class read from the bytes", v.len()), Ok(Err(e)) => format!("ClassFile::accept failed: {e:#}"), Err(p) => format!("ClassFile::accept panicked: {p}") };
 			r.violation(what.clone(), format!("property C17 (replay)\nwhat: {what}\nclass file: {}\nbytes (hex): {}\n", cb.name, hex(&cb.bytes)));
+			false
 		}
 	}
-	// (b) replaying into the full recording visitor delivers the same events as reading the bytes
-	//     (attribute-level events as a multiset, members and instructions in order)
-	match guarded(AssertUnwindSafe(|| tree.clone().accept(RecMulti::new(VDesc::full())))) {
-		Ok(Ok(m)) => {
-			let got = m.result.flatten();
-			let same = match (&got, full_trace) { (Some(a), Some(b)) => sorted_dbg(a) == sorted_dbg(b), (None, None) => true, _ => false };
-			if !same {
-				let what = "ClassFile::accept delivers other events to a full visitor than reading the bytes does".to_string();
-				let (a, b) = (got.as_ref().map(|e| sorted_dbg(e)).unwrap_or_default(), full_trace.as_ref().map(|e| sorted_dbg(e)).unwrap_or_default());
-				let diff = a.iter().zip(&b).find(|(x, y)| x != y).map(|(x, y)| format!("replay: {}\nread:   {}", &x[..x.len().min(400)], &y[..y.len().min(400)])).unwrap_or_else(|| format!("{} vs {} events", a.len(), b.len()));
-				r.violation(what.clone(), format!("property C17 (replay)\nwhat: {what}\nclass file: {}\nfirst difference:\n{diff}\nbytes (hex): {}\n", cb.name, hex(&cb.bytes)));
+}
+
+/// an in-memory class that no reader produces: a Code with only one of max_stack / max_locals.  The visitor API has one
+/// combined visit_max_stack_and_max_locals(u16, u16); Code::accept calls it only when both are present.
+fn partial_max_probe(r: &mut Report, cb: &ClassBytes, tree: &ClassFile) {
+	for which in 0..2 {
+		let mut t = tree.clone();
+		let Some(code) = t.methods.iter_mut().find_map(|m| m.code.as_mut()) else { return };
+		if which == 0 { code.max_locals = None; } else { code.max_stack = None; }
+		r.count("replay_partial_max_probes");
+		match guarded(AssertUnwindSafe(|| t.clone().accept(Vec::<ClassFile>::new()))) {
+			Ok(Ok(v)) if v.len() == 1 && format!("{:?}", v[0]) == format!("{t:?}") => {}
+			Ok(Ok(v)) if v.len() == 1 => {
+				// the only difference allowed by the finding: the remaining one of the two values is lost
+				let mut u = t.clone();
+				if let Some(c) = u.methods.iter_mut().find_map(|m| m.code.as_mut()) { c.max_stack = None; c.max_locals = None; }
+				if format!("{:?}", v[0]) == format!("{u:?}") { report_known_c(r, &cb.name); }
+				else { r.violation("replaying a tree whose Code has only one of max_stack / max_locals changes more than that value".into(), format!("property C17 (replay)\nclass file: {}\nedit: {} = None in the first Code\nbytes (hex): {}\n", cb.name, if which == 0 { "max_locals" } else { "max_stack" }, hex(&cb.bytes))); }
+			}
+			other => {
+				let what = match other { Ok(Err(e)) => format!("ClassFile::accept failed on a tree with one of max_stack / max_locals: {e:#}"), _ => "ClassFile::accept panicked on a tree with one of max_stack / max_locals".into() };
+				r.violation(what.clone(), format!("property C17 (replay)\nwhat: {what}\nclass file: {}\nbytes (hex): {}\n", cb.name, hex(&cb.bytes)));
 			}
 		}
-		Ok(Err(e)) => r.violation(format!("ClassFile::accept into a recording visitor failed: {e:#}"), format!("property C17 (replay)\nclass file: {}\nbytes (hex): {}\n", cb.name, hex(&cb.bytes))),
-		Err(p) => r.violation(format!("ClassFile::accept into a recording visitor panicked: {p}"), format!("property C17 (replay)\nclass file: {}\nbytes (hex): {}\n", cb.name, hex(&cb.bytes))),
 	}
+}
+const F20C: &str = "F20c replaying an in-memory Code that has only one of max_stack / max_locals into the tree builder loses the one it has (Code::accept calls the combined visit_max_stack_and_max_locals only when both are Some)";
+fn report_known_c(r: &mut Report, cb_name: &str) {
+	if finding_listed("F20c") { r.known(F20C.to_owned()); }
+	else {
+		r.count("pending_finding:F20c");
+		if !r.notes.iter().any(|n| n.starts_with("PENDING-FINDING F20c")) { r.notes.push(format!("PENDING-FINDING {F20C} — first seen on {cb_name}")); }
+	}
+}
+
+fn g_replay_case(stream: &[u8], tree_ok: bool, rebuilt: bool, runs: &[(VDesc, Option<Vec<Ev>>)]) -> String {
+	format!("CReplay {} {} {} {} {}", stream.len(), g_words(stream), gbool(tree_ok), gbool(rebuilt),
+		glist(runs.iter().map(|(d, t)| gpair(g_desc(d), gopt(t.as_ref().map(|e| g_evs(e)))))))
 }
 
 // ---------------------------------------------------------------- one stream
@@ -410,6 +482,15 @@ fn do_stream(r: &mut Report, rng: &mut Rng, ctx: &Ctx, parts: &[&ClassBytes], st
 	}
 
 	let tree = if parts.len() == 1 { match guarded(|| duke::read_class(&mut Cursor::new(&parts[0].bytes))) { Ok(Ok(t)) => Some(t), _ => None } } else { None };
+	let shape = if parts.len() == 1 { edge::shape(&parts[0].bytes) } else { None };
+	let mut replay_runs: Vec<(VDesc, Option<Vec<Ev>>)> = vec![];
+	let mut rebuilt = false;
+	if let Some(tree) = &tree {
+		rebuilt = rebuild_check(r, parts[0], tree);
+		if stream_no % 8 == 0 { partial_max_probe(r, parts[0], tree); }
+		// replaying into the full recording visitor
+		if let Some(Some(got)) = Some(replay_masked(r, parts[0], &shape, tree, "full", &VDesc::full(), &full_traces[0])) { replay_runs.push((VDesc::full(), got)); }
+	} else if parts.len() == 1 { r.count("replay_no_tree:tree_builder_rejects_the_class"); }
 	// configurations: per class its own list; combined position-wise (shorter lists are padded with the full visitor)
 	let per_class: Vec<Vec<(String, VDesc)>> = full_traces.iter().map(|t| configs(rng, member_counts(t), ctx.thorough, r)).collect();
 	let n = per_class.iter().map(|c| c.len()).max().unwrap_or(0);
@@ -443,14 +524,21 @@ fn do_stream(r: &mut Report, rng: &mut Rng, ctx: &Ctx, parts: &[&ClassBytes], st
 				}
 			}
 		}
+		let to_model = ctx.thorough || (j + stream_no) % 4 == 0;
 		if parts.len() == 1 {
-			if let (Some(tree), Some(Ok((t, _)))) = (&tree, ans.first()) { replay_masked(r, parts[0], tree, &kind, &descs[0], t); }
+			if let (Some(tree), Some(Ok((t, _)))) = (&tree, ans.first()) {
+				if let Some(got) = replay_masked(r, parts[0], &shape, tree, &kind, &descs[0], t) { if to_model { replay_runs.push((descs[0].clone(), got)); } }
+			}
 		}
 		// every configuration goes through the oracle; the Coq model gets all of them in the thorough tier
 		// and a rotating quarter of them in the quick tier (the case files are the expensive part)
-		if ctx.thorough || (j + stream_no) % 4 == 0 { r.count("configs_to_model"); runs.push((descs, ans)); }
+		if to_model { r.count("configs_to_model"); runs.push((descs, ans)); }
 	}
 	r.case(stream_kind, g_case(&stream, &runs));
+	if parts.len() == 1 {
+		r.count_n("replay_configs_to_model", replay_runs.len() as u64);
+		r.case(&format!("replay-{stream_kind}"), g_replay_case(&stream, tree.is_some(), rebuilt, &replay_runs));
+	}
 }
 
 pub fn run(ctx: &Ctx) -> anyhow::Result<Report> {
@@ -473,8 +561,6 @@ pub fn run(ctx: &Ctx) -> anyhow::Result<Report> {
 	// single-class streams
 	for (no, cb) in classes.iter().enumerate() {
 		do_stream(&mut r, &mut rng, ctx, &[cb], "single", no);
-		let full = run_config(&cb.bytes, &[VDesc::full()]);
-		if let Some(Ok((t, _))) = full.first() { replay_checks(&mut r, cb, t); }
 	}
 	// freshly generated classes (fbh::classfile::gen): every attribute kind at every level, unknown attributes,
 	// predefined names at foreign locations, exotic strings; attribute order shuffled by the knobs
@@ -492,10 +578,31 @@ pub fn run(ctx: &Ctx) -> anyhow::Result<Report> {
 	}
 	for (no, cb) in generated.iter().enumerate() {
 		do_stream(&mut r, &mut rng, ctx, &[cb], "generated", no);
-		let full = run_config(&cb.bytes, &[VDesc::full()]);
-		if let Some(Ok((t, _))) = full.first() { replay_checks(&mut r, cb, t); }
+	}
+	// edge cases for replay: present-but-empty lists, flags-only attributes, the same attribute at every level,
+	// duplicated annotation attributes — edits of generated classes and of the property's own corpus
+	let mut edges: Vec<ClassBytes> = vec![];
+	{
+		let bases: Vec<&ClassBytes> = generated.iter().chain(classes.iter().filter(|c| c.name.contains("/corpus/C17/"))).collect();
+		let n_sys = if ctx.thorough { 12 } else { 4 };
+		for (bi, b) in bases.iter().enumerate() {
+			let mut todo: Vec<Vec<&str>> = vec![];
+			if bi < n_sys { for k in edge::KINDS { todo.push(vec![k]); } }
+			let n_rand = if ctx.thorough { 3 } else { 1 };
+			for _ in 0..n_rand { let n = rng.range(1, 3); todo.push((0..n).map(|_| *rng.pick(&edge::KINDS)).collect()); }
+			for kinds in todo {
+				match guarded(AssertUnwindSafe(|| edge::make(&mut rng, &b.bytes, &kinds))) {
+					Ok(Some(bytes)) => { for k in &kinds { r.count(&format!("edge:{k}")); } edges.push(ClassBytes { name: format!("edge {kinds:?} of {}", b.name), bytes }); }
+					_ => r.count("edge_not_applicable"),
+				}
+			}
+		}
+	}
+	for (no, cb) in edges.iter().enumerate() {
+		do_stream(&mut r, &mut rng, ctx, &[cb], "edge", no);
 	}
 	classes.extend(generated);
+	classes.extend(edges);
 	// concatenations of 2..4 class files
 	let n_concat = if ctx.thorough { 40 } else { 8 };
 	for no in 0..n_concat {
